@@ -24,28 +24,36 @@ CLAIMS = {
                  "Coq proof (interpreter model = denotational semantics) + model/spec/implementation correspondence"),
     "C02": claim("Theorems (Props/C02.v): the sorting routine behind sort/sort_by is a permutation, ascending on total preorders and stable; "
                  "max_by/min_by return an input element; merge is right-biased; length/reverse on code points; keys/values pairwise; to_number is "
-                 "number-or-null; avg [] = null; map keeps length and evaluates once per element in order. The other builtins (numeric, string "
-                 "predicates, join, to_string incl. float printing, ...) are decided by correspondence of the 26 modelled bodies with "
+                 "number-or-null; avg [] = null; map keeps length and evaluates once per element in order; Ord for Variable is a total preorder on "
+                 "arrays of numbers (no NaN) and of strings, so sort is ascending and stable there and max/min return an extremal member; "
+                 "starts_with/ends_with/contains = prefix/suffix/substring (member up to ==); join = members separated by the glue; not_null = first "
+                 "non-null argument; to_array, type, to_string on strings. The numeric functions (abs, ceil, floor, sum, avg) and to_string's "
+                 "float printing are decided by correspondence of the 26 modelled bodies with "
                  "Function::evaluate on seeded well-typed tuples (arrays > 20 elements with duplicate keys, several Unicode planes).",
-                 "5 (C02)", "Partial: number instance of the total-preorder premises and the float-printing model (zmij) are validated, not proved."),
+                 "5 (C02)", "Partial: IEEE arithmetic facts of abs/ceil/floor/sum/avg and the float-printing model (zmij) are validated, not proved."),
     "C03": claim("Theorems (Props/C03.v): see level text in DESIGN.md 5 (C03): the generated binding-power table has the documented order; the "
                  "reference parser (same functions with the non-sentence branches closed) is the sentence oracle; deviations of the code from it are "
                  "listed known findings. Correspondence: parse trees and error positions of jmespath::parse vs the model on grammar-directed "
                  "sentences, one-token and one-character near misses, token soup, lexical edge cases; model vs reference parser on the same stream.",
                  "5 (C03), 2.5, 4.1", "Partial: soundness/completeness of the reference parser w.r.t. the CST grammar is not machine-checked yet."),
     "C04": claim("Theorems (Props/C04.v): the binding-power table extracted from lexer.rs on this run satisfies the documented order and the "
-                 "projection-stop threshold (any change of relative order breaks this obligation). Correspondence: every ordered pair and sampled "
+                 "projection-stop threshold (any change of relative order breaks this obligation; an order-preserving renumbering does not); "
+                 "Pratt invariant of the parser model: an operand parsed at binding power rbp is never followed by an operator binding tighter; "
+                 "an accepted expression is one complete operand followed by the end of the input. Correspondence: every ordered pair and sampled "
                  "triples of infix/prefix/postfix operators around atomic operands, through parse (trees) and search (results), model vs implementation "
                  "and model vs reference parser.", "5 (C04), 4.1.1", "Partial as C03."),
     "C05": claim("Theorems (Props/C05.v): slices, negative indexes and signature validation return for all inputs (no overflow, no out-of-bounds "
-                 "index, no loop); evaluation of core trees returns within fuel linear in the tree height for every document. Correspondence: "
+                 "index, no loop); evaluation of core trees returns within fuel linear in the tree height for every document; compile never traps and "
+                 "never exhausts its fuel (JSON reader, lexer, all 17 parser functions, any table), so compile returns an expression or a parse error; "
+                 "search never traps (all nodes, all 26 builtins behind guarded signatures). Correspondence: "
                  "hostile inputs through compile+search in child processes with a wall-clock limit, debug and release builds.",
                  "5 (C05)", "Partial: stack exhaustion (deep nesting) and the self-applied expression reference are recorded known findings; lexer/"
-                 "parser/builtin bodies are covered by correspondence."),
+                 "termination of search is proved for core trees only."),
     "C06": claim("Theorems (Props/C06.v): the signature table extracted from functions.rs/runtime.rs on this run means the specification's table "
                  "(sound type-equivalence check); is_valid = specified type membership; validate = declarative decision (arity first, first "
-                 "ill-typed position); every builtin validates first and afterwards never reports a signature error of its own. Correspondence: "
-                 "decision table over 26 builtins x arities x 22 type classes.", "5 (C06)", "Known finding: the code's `any` admits expression references."),
+                 "ill-typed position); every builtin validates first and afterwards never reports a signature error of its own; end to end: for every "
+                 "entry of the generated registration list the check of a call equals the verdict read from the specification's table alone. "
+                 "Correspondence: decision table over 26 builtins x arities x 22 type classes, judged against that verdict (specfn).", "5 (C06)", "Known finding: the code's `any` admits expression references."),
     "C07": claim("Theorems (Props/C07.v, all inputs): the model of variable.rs::slice/adjust_slice_endpoint and of the Index arm equals the "
                  "closed-form Python/JMESPath slice rule; never traps or runs out of fuel; closed form = membership characterisation. "
                  "Correspondence: exhaustive small scope + random i32 triples, debug and release, plus Python's own list slicing as a second oracle.",
@@ -68,8 +76,11 @@ CLAIMS = {
                  "member results, !/&&/|| truth tables. Metamorphic check of the same laws on the implementation + correspondence.", "5 (C11)"),
     "C12": claim("Theorems (Props/C12.v): line/column = zero-based line and character column of any character-boundary offset; arity/type/"
                  "unknown-function errors are located at the call's parenthesis, invalid-slice inside the slice; a successful evaluation restores the "
-                 "error cursor. Correspondence on class, kind, offset, line, column, payload of failing expressions and (expression, document) pairs.",
-                 "5 (C12)", "Partial: compile-error classification and the rendered message are decided by correspondence."),
+                 "error cursor; every failure of compile is a parse error and every failure of search a runtime error; Display's location block puts "
+                 "the caret under the character at the reported offset (model of errors.rs Display). Correspondence on class, kind, offset, line, "
+                 "column, payload of failing expressions and (expression, document) pairs; Display's block vs the model on arbitrary "
+                 "(expression, line, column); header line and reason prefix re-rendered independently.",
+                 "5 (C12)", "Partial: offsets of parse errors and the reason texts are decided by correspondence."),
     "C13": claim("Theorems (Props/C13.v) over the history model: compile deterministic; a search observes only its handle's text, its runtime's "
                  "registry and its document; searches leave no trace; clones and re-used expressions behave like fresh ones. Correspondence on seeded "
                  "histories + the purity law evaluated on the implementation + input value unchanged.", "5 (C13)"),
